@@ -191,7 +191,8 @@ func (p *c14) Run(w *lib.Worker, idx int, r *lib.Rand) lib.Case {
 			call = func() any { return validate.MaxLength("p", "body", s, lim) }
 		}
 	case "Pattern":
-		pats := []string{"^a", "b$", "^.$", "é", "(?i)^foo$", "^[a-c]+$", "(", "[a", "a{2,1}", "", "^$", "\\d+", "^\\p{L}+$", "\xff"}
+		pats := []string{"^a", "b$", "^.$", "é", "(?i)^foo$", "^[a-c]+$", "(", "[a", "a{2,1}", "", "^$", "\\d+", "^\\p{L}+$", "\xff",
+			"^a ", " ^a", "b$\n", "^.$ ", "\tfoo", "foo", "foo ", " "}
 		pat := pats[r.Intn(len(pats))]
 		s := c14Strings[r.Intn(len(c14Strings))]
 		render = fmt.Sprintf("Pattern(%q, %q)", s, pat)
